@@ -17,6 +17,7 @@ import (
 	dsq "github.com/ipfs/go-datastore/query"
 	ipld "github.com/ipfs/go-ipld-format"
 	"github.com/multiformats/go-base32"
+	mh "github.com/multiformats/go-multihash"
 	"pgregory.net/rapid"
 	"verif/kit"
 )
@@ -65,6 +66,12 @@ func gen(t *rapid.T) Case {
 		IDStore:      rapid.Bool().Draw(t, "idstore"),
 	}
 	c.Pool = kit.GenPool(t, 4, 12, true)
+	// identity payloads whose multihash length needs a multi-byte varint (>= 128 bytes)
+	for i := range c.Pool {
+		if c.Pool[i].Prefix.MhType == mh.IDENTITY && rapid.IntRange(0, 2).Draw(t, "longid") == 0 {
+			c.Pool[i].Data = kit.FillBytes(t, rapid.SampledFrom([]int{127, 128, 129, 200, 300}).Draw(t, "longidlen"))
+		}
+	}
 	n := rapid.IntRange(1, kit.Scale(60, 120)).Draw(t, "nops")
 	for i := 0; i < n; i++ {
 		k := rapid.SampledFrom(opKinds).Draw(t, "kind")
